@@ -7,6 +7,21 @@ V = Path(__file__).resolve().parent.parent
 TECH = "TLA+ specification model-checked with TLC, bound to the implementation by trace validation (TLC checks recorded implementation traces against the abstract spec) and replay of TLC-generated cases/behaviours"
 
 CLAIMS = {
+    "C07": {
+        "text": "Abstract specification LayerStack (A): a stack in flat form (recording layers in callback order, each with its chain of per-layer filters; global filters; event vetoes) and a history of emissions; a layer receives an emission iff every global filter and every filter attached to it accepts the metadata in the current context (FilterExpr!Enabled, the filters' own decision, itself validated against the real filters in C08); span visibility, enter/exit/record/close routing, current-span / scope / parent lookups follow. TLC validates, operation by operation, the callbacks recorded from REAL stacks (built from the tree form: Filtered, and_then trees, Vec/Option/Box/reload wrappers, level/Targets/filter_fn/dynamic_filter_fn/and/or/not/Option filters, static, dynamic and mixed-interest global filters) under 50-operation histories incl. enabled! probes, vetoed events, flag flips, 1-2 threads, through the real macros and all process-global caches; 600 (quick) / 6000 (thorough) stack x history pairs, one process each.",
+        "note": "Model checking here is trace validation of implementation runs against A (every operation's observation is a TLC state); there is no exhaustive mechanism model of the FILTERING bitmap yet (planned). The flat form (python flatten) is trusted as the meaning of the tree. Known findings F3 (stale filter bits after an unconsumed enabled pass) and F17 (hint of and_then trees with a None half) are reported as KNOWN-FINDING and their history / configuration class is not judged further.",
+        "ref": "4 (C07)",
+    },
+    "C08": {
+        "text": "TLC enumerates every filter expression to depth 2 (1600+; thorough adds a depth-3 family) over level / Targets (incl. replaced directives) / filter_fn / dynamic_filter_fn / Option / and / or / not and checks, for all metadata x contexts, that the summaries the code's combinator formulas publish (callsite_enabled, max_level_hint) are sound w.r.t. the decision (SummariesSound). Binding: every enumerated expression is built as a real filter; through a Spy on a real per-layer-filtered stack fed by 40 macro callsites in 2 contexts its real answers are recorded and TLC validates soundness of the REAL summary vs the REAL decision (verdict) and agreement with the formulas (drift). Whole stacks: for 500/5000 random stacks the composed collector's register_callsite/max_level_hint are validated against what any layer would receive.",
+        "note": "EnvFilter summaries are covered under C11. Known finding F17 (tree-shaped stacks with a None half) is reported as KNOWN-FINDING. F16 (and_then on a Registry ignores the inner half's hint) was found here and fixed (edd7d7b).",
+        "ref": "4 (C08)",
+    },
+    "C09": {
+        "text": "Same abstract specification as C07, on unfiltered stacks of 1-5 elements with every provided wrapper (Box, Some, one-element Vec, reload, nested wrappers, None, empty Vec, Identity, and_then, two-element Vec, boxed / arc'd / doubly boxed collector) and all notification kinds: the real stack's callbacks (new span, record, follows_from, event, enter, exit, close, in inner-to-outer order, each layer exactly once; registration passes and on_register_dispatch each layer exactly once; an event_enabled veto stops everyone) are validated by TLC against the FLAT form of the stack, i.e. with the wrappers erased - wrapper transparency is exactly that the flat form predicts the wrapped stack.",
+        "note": "Order among layers is not judged for register_callsite / on_register_dispatch (the code asks outer layers first there). F4, F5, F14, F15 (missing forwarding in Box/Arc/Layered collectors, Vec, reload filter; empty Vec disabling the stack) were found here and fixed.",
+        "ref": "4 (C09)",
+    },
     "C05": {
         "text": "TLC explores every history (2 threads, 2 registries, 3 spans, 1 capture slot, 8-10 operations: create with contextual/root/explicit parent, clone, drop, enter/exit in any order incl. re-entry and cross-thread, Span::current / SpanTrace capture, walk, drop, events, default switches) of the registry mechanism model (ref_count = handles + non-duplicate stack entries + open children, per-thread stack with duplicate markers, try_close/Clear releasing the parent through the thread's current default) and checks that the closes it produces are exactly the abstract ones (a span closes when no handle, no thread has it entered, all children closed; children first) - outside the history class of known finding F2, which the model must still exhibit. Binding: TLC -simulate histories (three configs incl. a dense 4-span one and one with foreign defaults) run against real Registry stacks under two recording layers + ErrorSubscriber, one process each; TLC validates every observation (close order per layer, data readable during close, stale data, live set, id uniqueness).",
         "note": "Sequential consistency at operation granularity (the ref-count interleavings are RegistryRace, planned). Known finding F2 (close path through a foreign/absent default) is reported as KNOWN-FINDING; histories are not judged after an F2 hazard. F9 was found with this model and fixed (b906e4e).",
